@@ -12,6 +12,7 @@ import (
 	"path/filepath"
 	"testing"
 	"testing/synctest"
+	"time"
 
 	fingerproxy "github.com/wi1dcard/fingerproxy"
 	"github.com/wi1dcard/fingerproxy/pkg/certwatcher"
@@ -172,6 +173,9 @@ func chainCase(t *testing.T, rep *ev.Report, mat *certenv.Material, tmp string, 
 			}
 		}
 		kick <- struct{}{}
+		synctest.Wait()
+		// no deadline in the statement: timers of the implementation (debounce, retry) get their time
+		time.Sleep(30 * time.Second)
 		synctest.Wait()
 		rep.Add("chain_update_cases", 1)
 		rep.Add("evaluations", 1)
